@@ -99,4 +99,12 @@ PROPS["C11"] = {
     "assumptions": ["cancellation is issued from inside callbacks in correspondence scenarios; the theorem also covers an asynchronous cancel step"],
 }
 
+PROPS["C14"] = {
+    "parts": [{"family": "store", "admits": "StoreCorr.admits_store", "model_obs": None}],
+    "level_text": "Theorem C14_isolated: for every operation sequence of any length (store operations, mutations of the maps and slices handed out, merges of those maps back) naming only objects that were handed out, every answer of the heap machine - the store as the Go code structures it: current map object updated in place, Clear re-allocating, GetAll and Keys copying into fresh objects - equals the answer of the machine in which the store is a map value and snapshots are separate values; C14_get_set / _get_delete / _get_merge (finite-map laws, Merge overwrites key-wise with the last binding, stored nil present), C14_reachable_nodup and C14_answers_consistent (Has/Len/Keys/GetAll agree). The implementation's answers must equal the heap machine's (admits) and the value machine's (spec_C14) on seeded sequences with ~15% snapshot mutations and a hostile corpus.",
+    "level_note": _T + " Keys and values are identifiers; Go values of ten kinds (nil, scalars, slices, maps, pointers, structs, funcs) stand behind them. Locking is C13.",
+    "explanation": "refinement heap machine -> value machine for all histories; differential runs with snapshot mutation",
+    "assumptions": ["a Keys() slice is sorted by the scenario as soon as it is obtained (map iteration order is unspecified)"],
+}
+
 NOT_APPLICABLE = {}
